@@ -69,7 +69,8 @@ impl Prop for C05 {
         let req = request(st.version);
         let addr = SocketAddr::new(doc_ip(), 27960);
         let (req2, reply2) = (req.clone(), reply.clone());
-        let sample = crate::runner::digest(&reply) % 48 == 0;
+        // (replies that do not fit the transport's default sizes are sampled more often: that is where the two transports could part)
+        let sample = crate::runner::digest(&reply) % 48 == 0 || (reply.len() > 1024 && crate::runner::digest(&reply) % 8 == 0);
         let make = move || {
             let (req, reply) = (req2.clone(), reply2.clone());
             Box::new(move |proto: Proto, _peer: &SocketAddr, _nth: usize, data: &[u8], out: &mut Outbox| {
@@ -113,7 +114,9 @@ impl Prop for C05 {
                 expect_equal("C05", &entry, &run, &st.expected_two(), &["unused_entries"])
             }
         };
-        o.failure = f;
+        if f.is_some() {
+            o.failure = f;
+        }
         o
     }
 }
